@@ -1,6 +1,6 @@
 """C19 - stopping conditions stop the run when, and only when, they are met.
 
-proof:          coq/C19/Properties.v (24 theorems about the real instance of coq/C19/Model.v: latch, registration API,
+proof:          coq/C19/Properties.v (26 theorems about the real instance of coq/C19/Model.v: latch, registration API,
                 or/and combination, first-hit stop, crossing time within the step / on the chord, TTP
                 after reset; the physics is an arbitrary function `next`).
 correspondence: the REAL stopping machinery (PrecipitationStoppingCondition.testCondition,
@@ -176,7 +176,7 @@ def scripted_class():
 
         def postProcess(self, t, x):
             r = super().postProcess(t, x)
-            self.log.append((bool(r[1]), [latch_of(c) for c in self._stoppingConditions]))
+            self.log.append((bool(r[1]), [latch_of(c) for c in getattr(self, 'c19_objs', [])]))
             return r
 
     _SCRIPTED = ScriptedModel
@@ -233,7 +233,7 @@ def mk_stub_model(cfg):
             r = super().postProcess(t, x)
             if not hasattr(self, 'log'):
                 self.log = []
-            self.log.append((bool(r[1]), [latch_of(c) for c in self._stoppingConditions]))
+            self.log.append((bool(r[1]), [latch_of(c) for c in getattr(self, 'c19_objs', [])]))
             return r
 
     m = Logged(phases=phases, elements=['B'])
@@ -283,6 +283,13 @@ def quiet_solve(model, simTime, solver):
             model.solve(simTime, solverType=solver)
         return None
     except Exception as e:
+        tb = e.__traceback__
+        while tb.tb_next is not None:
+            tb = tb.tb_next
+        if isinstance(e, (AttributeError, TypeError, NameError)) and tb.tb_frame.f_code.co_filename.endswith('c19.py'):
+            # raised by the harness's own code (its scripted subclass / logging touching kawin internals that
+            # are gone): the check itself is broken, this is not a failing input
+            raise RuntimeError('harness code failed on kawin internals: %s: %s' % (type(e).__name__, e))
         return type(e).__name__ + ': ' + str(e)[:200]
 
 
@@ -300,8 +307,43 @@ _REF_CACHE = {}
 def run_scenario(sc):
     """runs reference (no conditions) and conditioned runs for every segment of the scenario;
     returns list of segment records {ref, n0, simTime, init (latches at segment start), fresh, res}"""
-    solver = solver_of(sc)
     segs = []
+    for _ in scenario_steps(sc, segs):
+        pass
+    return segs
+
+
+def run_interleaved(scs):
+    """two or three scenarios whose models and condition objects are alive at the same time and whose solves
+    alternate: A built, B built, A segment 1, B segment 1, A segment 2, B segment 2"""
+    all_segs = [[] for _ in scs]
+    gens = [scenario_steps(sc, segs) for sc, segs in zip(scs, all_segs)]
+    alive = list(range(len(gens)))
+    while alive:
+        for i in list(alive):
+            try:
+                next(gens[i])
+            except StopIteration:
+                alive.remove(i)
+    return all_segs
+
+
+def permuted_script(script, phases, elements, phases2, elements2):
+    """the same recorded quantities, columns re-ordered by NAME for a model that lists phases2 / elements2;
+    a phase the first model did not have gets a series of its own"""
+    rows = []
+    for r in script['rows']:
+        r2 = {}
+        for q in QUANT:
+            src, dst = (elements, elements2) if q == 'Composition' else (phases, phases2)
+            r2[q] = [r[q][src.index(nm)] if nm in src else 0.37 * r[q][0] + 0.11 * r[q][-1] for nm in dst]
+        rows.append(r2)
+    return {'rows': rows, 'dt': list(script['dt'])}
+
+
+def scenario_steps(sc, segs):
+    """generator: yields after construction, after the first segment and at the end"""
+    solver = solver_of(sc)
     ck = json.dumps([sc['stub'], sc['simTime'], sc.get('solver')], sort_keys=True) if sc['base'] == 'stub' else None
     if ck is not None and ck in _REF_CACHE:
         ref_rows = _REF_CACHE[ck]
@@ -309,7 +351,8 @@ def run_scenario(sc):
         ref = mk_model(sc)
         e = quiet_solve(ref, sc['simTime'], solver)
         if e:
-            return [{'ref_err': e}]
+            segs.append({'ref_err': e})
+            return
         ref_rows = rows_of(ref)
         if ck is not None:
             _REF_CACHE[ck] = ref_rows
@@ -317,10 +360,13 @@ def run_scenario(sc):
     objs = [mk_cond(c) for c in sc['conds']]
     for c, o in zip(sc['conds'], objs):
         register_cond(model, o, c)
+    model.c19_objs = objs          # the harness's own record of what it registered (no private attribute is read)
     init = [latch_of(o) for o in objs]
+    yield 'built'
     err = quiet_solve(model, sc['simTime'], solver)
     segs.append({'ref': ref_rows, 'n0': 1, 'simTime': sc['simTime'], 'init': init, 'fresh': True,
                  'res': segment_result(model, objs, 1, err)})
+    yield 'first'
     then = sc.get('then')
     if then and not err:
         if then['op'] == 'continue':
@@ -329,10 +375,11 @@ def run_scenario(sc):
             twin = copy.deepcopy(model)
             twin.clearStoppingConditions()
             twin.log = []
+            twin.c19_objs = []
             e = quiet_solve(twin, then['simTime'], solver)
             if e:
                 segs.append({'ref_err': e})
-                return segs
+                return
             err = quiet_solve(model, then['simTime'], solver)
             segs.append({'ref': rows_of(twin), 'n0': n0, 'simTime': then['simTime'], 'init': init, 'fresh': False,
                          'res': segment_result(model, objs, n0, err)})
@@ -344,7 +391,7 @@ def run_scenario(sc):
             e = quiet_solve(ref2, then['simTime'], solver)
             if e:
                 segs.append({'ref_err': e})
-                return segs
+                return
             err = quiet_solve(model, then['simTime'], solver)
             segs.append({'ref': rows_of(ref2), 'n0': 1, 'simTime': then['simTime'], 'init': after_reset, 'fresh': True,
                          'after_reset': after_reset, 'res': segment_result(model, objs, 1, err)})
@@ -360,21 +407,54 @@ def run_scenario(sc):
                 twin = copy.deepcopy(model)
             twin.clearStoppingConditions()
             twin.log = []
+            twin.c19_objs = []
             old_before = [latch_of(o) for o in objs]
             model.clearStoppingConditions()
             objs2 = [mk_cond(c) for c in then['conds']]
             for c, o in zip(then['conds'], objs2):
                 register_cond(model, o, c)
+            model.c19_objs = objs2
             init = [latch_of(o) for o in objs2]
             e = quiet_solve(twin, then['simTime'], solver)
             if e:
                 segs.append({'ref_err': e})
-                return segs
+                return
             err = quiet_solve(model, then['simTime'], solver)
             segs.append({'ref': rows_of(twin), 'n0': n0, 'simTime': then['simTime'], 'init': init, 'fresh': True,
                          'conds': then['conds'], 'old_latches': [latch_of(o) for o in objs],
                          'old_before': old_before, 'res': segment_result(model, objs2, n0, err)})
-    return segs
+        elif then['op'] == 'reuse':
+            # the SAME condition objects registered on a second model that lists the phases / elements in
+            # another order (or has an additional phase listed first); the documented ways of re-using a
+            # condition: model.reset() after registering, condition.reset(), or nothing (latches carried over)
+            sc2 = dict(sc, phases=then['phases'], elements=then['elements'])
+            if sc['base'] == 'scripted':
+                sc2['script'] = then['script']
+            else:
+                sc2['stub'] = then['stub']
+            sc2.pop('then', None)
+            model2 = mk_model(sc2)
+            twin = mk_model(sc2)
+            for c, o in zip(sc['conds'], objs):
+                register_cond(model2, o, c)
+            model2.c19_objs = objs
+            if then['how'] == 'model_reset':
+                model2.reset()
+                twin.reset()
+            elif then['how'] == 'cond_reset':
+                for o in objs:
+                    o.reset()
+            init = [latch_of(o) for o in objs]
+            e = quiet_solve(twin, then['simTime'], solver)
+            if e:
+                segs.append({'ref_err': e})
+                return
+            err = quiet_solve(model2, then['simTime'], solver)
+            segs.append({'ref': rows_of(twin), 'n0': 1, 'simTime': then['simTime'], 'init': init, 'fresh': then['how'] != 'none',
+                         'after_reset': init if then['how'] != 'none' else None,
+                         'phases': list(then['phases']), 'elements': list(then['elements']),
+                         'res': segment_result(model2, objs, 1, err)})
+    return
 
 
 def run_seq(sc):
@@ -553,7 +633,7 @@ def expected_time(c, ref, n, phases, elements):
 
 def oracle_segment(sc, seg):
     """returns list of (clause, cls, message)"""
-    phases, elements = sc['phases'], sc['elements']
+    phases, elements = seg.get('phases', sc['phases']), seg.get('elements', sc['elements'])
     conds = seg.get('conds', sc['conds'])
     res = seg['res']
     ref = seg['ref']
@@ -831,7 +911,28 @@ def gen_scripted(rng, idx):
             for c in conds2:
                 c['mode'] = 'default'
         sc['then'] = {'op': 'clear', 'reset': bool(rng.random() < 0.6), 'simTime': float(simTime * rng.choice([0.5, 1.0, 1.5])), 'conds': conds2}
+    elif r < 0.75 and conds:
+        sc['then'] = gen_reuse(rng, sc)
     return sc
+
+
+def gen_reuse(rng, sc):
+    """second model for the same condition objects: phases / elements permuted, possibly an additional phase
+    listed first or a phase missing; same recorded quantities per NAME"""
+    phases, elements = sc['phases'], sc['elements']
+    how = str(rng.choice(['perm', 'extra_first', 'drop'], p=[0.5, 0.4, 0.1])) if len(phases) > 1 else 'extra_first'
+    if how == 'perm':
+        ph2 = [phases[i] for i in rng.permutation(len(phases))]
+        if ph2 == phases:
+            ph2 = phases[1:] + phases[:1]
+    elif how == 'extra_first':
+        ph2 = ['B4'] + [phases[i] for i in rng.permutation(len(phases))]
+    else:
+        ph2 = phases[1:]
+    el2 = list(reversed(elements)) if rng.random() < 0.6 else list(elements)
+    return {'op': 'reuse', 'how': str(rng.choice(['model_reset', 'cond_reset', 'none'], p=[0.45, 0.35, 0.2])),
+            'phases': ph2, 'elements': el2, 'script': permuted_script(sc['script'], phases, elements, ph2, el2),
+            'simTime': float(sc['simTime'] * rng.choice([0.5, 1.0, 1.5]))}
 
 
 def gen_seq(rng, idx):
@@ -932,7 +1033,7 @@ def model_terms_run(sc, segs):
         # (identical to simTime whenever the addition is exact, e.g. always for t0 = 0).
         t0 = seg['ref'][seg['n0'] - 1]['t']
         tf = t0 + seg['simTime']
-        terms.append('run_case %s %s %s %s %s' % (names_lit(sc['phases'], sc['elements']), rows_lit(seg['ref'][:keep]), natlit(seg['n0']),
+        terms.append('run_case %s %s %s %s %s' % (names_lit(seg.get('phases', sc['phases']), seg.get('elements', sc['elements'])), rows_lit(seg['ref'][:keep]), natlit(seg['n0']),
                                                   qlit(frac(tf) - frac(t0)), entries_lit(seg.get('conds', sc['conds']), seg['init'])))
         idx.append(si)
     return terms, idx
@@ -1028,6 +1129,34 @@ def explore_runs(ctx, scenarios, label):
             for (clause, cls, msg) in oracle_segment(sc, seg):
                 hits.append((sc, clause, cls, msg))
     return dis_all, hits
+
+
+def explore_pairs(ctx, groups, label=''):
+    """models and condition objects of two scenarios alive together, solves interleaved: each must behave exactly
+    as it does alone (bitwise: recorded rows, stop flags, latch history, errors)"""
+    hits = []
+    for scs in groups:
+        alone = [run_scenario(sc) for sc in scs]
+        both = run_interleaved(scs)
+        for sc, sa, sb in zip(scs, alone, both):
+            if ctx is not None:
+                ctx.count(['pair', key_of(sc)], nontrivial_run(sc, sb))
+                ctx.hist('kind', 'interleaved:' + sc['base'])
+            same = len(sa) == len(sb) and all(('res' in x) == ('res' in y) and ('res' not in x or
+                    (x['res']['rows'] == y['res']['rows'] and x['res']['log'] == y['res']['log'] and x['res']['latches'] == y['res']['latches']
+                     and (x['res']['err'] is None) == (y['res']['err'] is None))) for x, y in zip(sa, sb))
+            if not same:
+                k = next((i for i, (x, y) in enumerate(zip(sa, sb)) if 'res' in x and 'res' in y and
+                          (x['res']['latches'] != y['res']['latches'] or x['res']['rows'] != y['res']['rows'] or x['res']['log'] != y['res']['log'])), 0)
+                hits.append((dict(sc, partner=[s_ for s_ in scs if s_ is not sc][0]), 'run_unperturbed', 'interleaved models',
+                             'a model run interleaved with another model differs from the same model run alone (segment %d: latches %r vs %r, steps %d vs %d)'
+                             % (k, sb[k]['res']['latches'] if 'res' in sb[k] else None, sa[k]['res']['latches'] if 'res' in sa[k] else None,
+                                len(sb[k]['res']['rows']) - 1 if 'res' in sb[k] else -1, len(sa[k]['res']['rows']) - 1 if 'res' in sa[k] else -1)))
+            for seg in sb:
+                if 'res' in seg:
+                    for (clause, cls, msg) in oracle_segment(sc, seg):
+                        hits.append((sc, clause, cls, msg))
+    return [], hits
 
 
 def explore_seq(ctx, scenarios, label):
@@ -1128,6 +1257,9 @@ def explore_ttp(ctx, scenarios, label):
 # ------------------------------------------------------------------------------------------
 def check_one(sc):
     """oracle only, for shrinking and replay"""
+    if sc['kind'] == 'run' and sc.get('partner') is not None:
+        me = {k: v for k, v in sc.items() if k != 'partner'}
+        return [h[1:] for h in explore_pairs(None, [[me, sc['partner']]])[1]]
     if sc['kind'] == 'run':
         out = []
         for seg in run_scenario(sc):
@@ -1218,6 +1350,9 @@ def run(ctx):
     d, h = explore_runs(ctx, [gen_scripted(rng, i) for i in range(n_run)], 'scripted')
     dis += d
     hits += h
+    d, h = explore_pairs(ctx, [[gen_scripted(rng, i) for i in range(2)] for _ in range(16 if quick else 200)] +
+                         [[gen_scripted(rng, i) for i in range(3)] for _ in range(4 if quick else 40)], 'scripted')
+    hits += h
     d, h = explore_seq(ctx, [gen_seq(rng, i) for i in range(n_seq)], 'main')
     dis += d
     hits += h
@@ -1246,10 +1381,25 @@ def run(ctx):
                 for c in c2:
                     c['mode'] = 'default'
                 sc['then'] = {'op': 'clear', 'reset': True, 'simTime': cfg['simTime'], 'conds': c2}
+            if j == 3 or (j == 1 and cfg['solver'] != 'euler'):
+                # the same condition objects on a second model with the phases in another order / one more phase first
+                ph2 = list(reversed(cfg['phases'])) if len(cfg['phases']) > 1 else ['B3'] + cfg['phases']
+                named = []
+                for _ in range(40):
+                    named += [c for c in stub_conds(rng, ref, cfg['phases'], 3) if c['q'] != 'Composition' and c['sel'] == cfg['phases'][-1]]
+                    if len(named) >= 2:
+                        break
+                sc['conds'] = named[:2]
+                sc['then'] = {'op': 'reuse', 'how': ('model_reset' if len(cfg['phases']) > 1 else 'cond_reset'), 'phases': ph2, 'elements': ['B'],
+                              'stub': dict(cfg, phases=ph2), 'simTime': cfg['simTime']}
             stub_sc.append(sc)
     d, h = explore_runs(ctx, stub_sc, 'stub')
     dis += d
     hits += h
+    two = [sc for sc in stub_sc if sc.get('then', {}).get('op') == 'continue'][:2]
+    if len(two) == 2:
+        d, h = explore_pairs(ctx, [two], 'stub')
+        hits += h
     # TTPCalculator on the real model, three temperatures
     ttp_stub = [{'kind': 'ttp', 'base': 'stub', 'stub': STUB_CFGS[0], 'phases': ['B1'], 'elements': ['B'],
                  'conds': [{'q': 'VolFrac', 'ineq': 'GT', 'value': 1e-4, 'sel': None, 'mode': 'and'},
